@@ -59,6 +59,12 @@ func corpus() []*hist {
 			RW(8), RW(9, 1), RW(-1, 1), RW(6, 1, 2, 3, 4), K(kBytes), RW(2, 55), UB, RB),
 		fixed("corpus-tex", false, zero, W(seq(5, 1)), RW(1, 9, 9), RB, RW(0, 8), UB, RB, RW(5), RW(6), R(9), R(1), RW(0), RW(1, 1), WB(3), RW(0, 4, 4)),
 		fixed("corpus-tex", false, initSpec{k: iNewSized, size: 16}, K(kBytes), K(kLen), W(seq(8, 1)), RW(4, 0xaa, 0xbb, 0xcc, 0xdd), RW(6, 1, 2, 3), RR, RW(0, 0xe2), UR, RR),
+		// sizes that cannot be allocated: ErrTooLarge through makeSlice (no capacity yet / 2c+n fits an int) and through
+		// the overflow guard (maxInt with capacity), never a bare runtime error; negative: the negative-count panic
+		fixed("corpus-eq", true, zero, G(maxInt), K(kLen), G(1<<50), G(maxInt/2), W(seq(5, 1)), G(maxInt), G(maxInt-1), G(1<<49), G(maxInt/2), K(kBytes),
+			RB, G(1<<60), K(kLen), RB, UB, G(-1), R(9), G(maxInt), WB(7), K(kBytes)),
+		fixed("corpus-eq", true, initSpec{k: iNew, data: seq(8, 1), cp: 8}, R(8), G(1<<52), K(kBytes), WB(1), R(1), G(maxInt/2+1), K(kLen)),
+		fixed("corpus-tex", false, initSpec{k: iNewSized, size: 4}, K(kBytes), K(kLen), G(1<<49), W(seq(4, 1)), G(maxInt), RW(0, 9), G(-5), K(kBytes)),
 		// NewSizedBuffer
 		fixed("corpus-tex", false, initSpec{k: iNewSized, size: -1}),
 		fixed("corpus-tex", false, initSpec{k: iNewSized, size: 0}, K(kBytes), K(kLen), K(kCap), WB(1), RB, UB),
